@@ -2330,7 +2330,10 @@ static void _ov_getlap(OggVorbis_File *vf,vorbis_info *vi,vorbis_dsp_state *vd,
     }else{
     /* suck in another packet */
       int ret=_fetch_and_process_packet(vf,NULL,1,0); /* do *not* span */
-      if(ret==OV_EOF)break;
+      if(ret==OV_EOF || ret==OV_EREAD)break; /* a failing source yields
+                                                no more lapping data
+                                                either; the seek that
+                                                follows reports it */
     }
   }
   if(lapcount<lapsize){
